@@ -39,6 +39,7 @@ def _warn(faults, msg, cat):
 class Faults:
     def __init__(self, ctx, K):
         self.ctx, self.n, self.fired, self.paused = ctx, 0, None, False
+        self.kinds = {}
         self.at = core.Int("fault_at")
         ctx.assume(s_and(self.at >= 0, self.at <= K))
 
@@ -46,8 +47,9 @@ class Faults:
         if self.fired is not None or self.paused:
             return
         self.n += 1
+        self.kinds[name] = self.kinds.get(name, 0) + 1
         if bool(self.at == self.n):
-            self.fired = (self.n, name)
+            self.fired = (self.n, name, self.kinds[name])
             raise InjectedFault("injected fault #%d at %s" % (self.n, name))
 
 
@@ -65,6 +67,52 @@ def _behaviour(net, A, L):
     return [str(core.zn(v)) if isinstance(v, core.Sym) else str(v) for v in y.a.flat], [str(core.zn(v)) if isinstance(v, core.Sym) else str(v) for v in g.a.flat]
 
 
+
+# ------------------------------------------------------------------ the other model-taking entry points (shared by harness and replay)
+
+EXTRA = ("ism", "ism_raw", "marginalize", "ablate", "ablate_dls", "space", "space_dls", "substitution_effect", "deletion_effect",
+         "insertion_effect", "apply_product", "apply_pairwise", "greedy", "marginalize_annotations", "ablate_annotations")
+
+
+def call_entry(entry, M, net, X, A, L, refgen, oh, ints, reals, bs, l1):
+    """One call of a model-taking tangermeme function.  M(name) gives the module (loaded source or the real package),
+    oh / ints / reals build one-hot, integer and real tensors for that side."""
+    alphabet = list(C.ALPHA[:A])
+    dlsf = M("deep_lift_shap").deep_lift_shap
+    B = X.shape[0]
+    if entry == "ism":
+        return M("ism").saturation_mutagenesis(net, X, batch_size=bs, device="cpu")
+    if entry == "ism_raw":
+        return M("ism").saturation_mutagenesis(net, X, start=1, end=L, batch_size=bs, raw_outputs=True, device="cpu")
+    if entry == "marginalize":
+        return M("marginalize").marginalize(net, X, oh([[1]]), start=0, alphabet=alphabet, batch_size=bs, device="cpu")
+    if entry == "marginalize_annotations":
+        return M("marginalize").marginalize_annotations(net, X, X, ints([[0, 0, 2], [B - 1, 1, 2]]), alphabet=alphabet, batch_size=bs, device="cpu")
+    if entry == "ablate":
+        return M("ablate").ablate(net, X, 0, 2, n=2, random_state=0, batch_size=bs, device="cpu")
+    if entry == "ablate_annotations":
+        return M("ablate").ablate_annotations(net, X, ints([[0, 0, 2], [B - 1, 1, 3]]), n=2, random_state=0, batch_size=bs, device="cpu")
+    if entry == "ablate_dls":
+        return M("ablate").ablate(net, X, 0, 2, n=1, random_state=0, func=dlsf, references=refgen, n_shuffles=1, batch_size=bs, device="cpu")
+    if entry == "space":
+        return M("space").space(net, X, [oh([[0]]), oh([[1]])], [[0], [1]], start=0, alphabet=alphabet, batch_size=bs, device="cpu")
+    if entry == "space_dls":
+        return M("space").space(net, X, [oh([[0]]), oh([[1]])], [[1]], start=0, alphabet=alphabet, func=dlsf, references=refgen, n_shuffles=1, batch_size=bs, device="cpu")
+    if entry == "substitution_effect":
+        return M("variant_effect").substitution_effect(net, X, ints([[0, 1, 1], [B - 1, 0, 0]]), batch_size=bs, device="cpu")
+    if entry == "deletion_effect":
+        return M("variant_effect").deletion_effect(net, X, ints([[0, 1], [B - 1, 2]]), batch_size=bs, device="cpu")
+    if entry == "insertion_effect":
+        return M("variant_effect").insertion_effect(net, X, ints([[0, 1, 1]]), batch_size=bs, device="cpu")
+    if entry == "apply_product":
+        return M("product").apply_product(M("predict").predict, net, X, args=[reals(2), reals(2)], batch_size=bs, device="cpu")
+    if entry == "apply_pairwise":
+        return M("product").apply_pairwise(M("predict").predict, net, X, args=[reals(3)], batch_size=bs, device="cpu")
+    if entry == "greedy":
+        return M("design").greedy_substitution(net, X[:1], [C.ALPHA[1], C.ALPHA[0] + C.ALPHA[1]], reals(1, 2), loss=l1, tol=0, max_iter=2, alphabet=alphabet, batch_size=bs, device="cpu")
+    raise KeyError(entry)
+
+
 # ------------------------------------------------------------------ replay on real torch
 
 def replay(r):
@@ -73,7 +121,8 @@ def replay(r):
     from tangermeme.deep_lift_shap import deep_lift_shap
     from tangermeme.predict import predict
     A, L = r["A"], r["L"]
-    model = dl.real_model(r.get("arch", "dense1"), A, L)
+    LM = r.get("L_model", L)
+    model = dl.real_model(r.get("arch", "dense1"), A, LM)
     if r.get("shared_act") or r.get("bn") or r.get("lazy_cache"):
         base = model
 
@@ -91,12 +140,12 @@ def replay(r):
                     X = self.bn(X)
                 if r.get("lazy_cache"):
                     if getattr(self, "_pos", None) is None:
-                        self._pos = torch.ones(1, A, L, dtype=X.dtype)
+                        self._pos = torch.ones(1, A, LM, dtype=X.dtype)
                     X = X * self._pos
                 return self.inner(X)
         model = Wrap()
         model.train(bool(r.get("starts_in_training_mode", True)))
-    probe = torch.rand(1, A, L, dtype=torch.float64, generator=torch.Generator().manual_seed(0), requires_grad=True)
+    probe = torch.rand(1, A, LM, dtype=torch.float64, generator=torch.Generator().manual_seed(0), requires_grad=True)
 
     def beh():
         y = model(probe)
@@ -113,7 +162,7 @@ def replay(r):
     fresh = copy.deepcopy(model)
     b0 = {k: v.clone() for k, v in model.state_dict().items()}
     p0 = [p.detach().clone() for p in model.parameters()]
-    X = C.real_onehot(r.get("x") or [[i % A for i in range(L)], [(i + 1) % A for i in range(L)]], A).double()
+    X = C.real_onehot(r.get("x") or _default_x(A, L, r.get("B", 2)), A).double()
     calls = {"n": 0}
     site, at = r.get("site"), r.get("at", 1)
 
@@ -150,8 +199,14 @@ def replay(r):
             with warnings.catch_warnings():
                 warnings.simplefilter("error" if r.get("warn_as_error") else "ignore")
                 deep_lift_shap(model, X, **kw)
-        else:
+        elif r["entry"] == "predict":
             predict(model, X, device="cpu")
+        else:
+            import importlib
+            call_entry(r["entry"], lambda n: importlib.import_module("tangermeme." + n), model, X, A, L, refgen,
+                       oh=lambda ch: C.real_onehot(ch, A).double(), ints=lambda rows: torch.tensor(rows, dtype=torch.int64),
+                       reals=lambda *shape: (torch.arange(1, int(np.prod(shape)) + 1, dtype=torch.float64) / 2).reshape(shape + ((1,) if len(shape) == 1 else ())),
+                       bs=r.get("batch_size", 2), l1=torch.nn.L1Loss(reduction="none"))
     except Exception as e:
         raised = e
     if site == "forward":
@@ -202,12 +257,13 @@ def worker(cfg):
     stats = core.Stats()
     out = {"violations": [], "samples": []}
     A, L, B, entry = cfg["A"], cfg["L"], cfg["B"], cfg["entry"]
+    LM = cfg.get("L_model", L)                 # deletion_effect hands the model sequences one position shorter
     if cfg.get("warn_as_error"):
         torch_s.any = lambda x, *a, **k: True          # |delta| > warning_threshold = -1 holds for every value
 
     def body(ctx):
         faults = Faults(ctx, cfg["K"])
-        inner = dl.build(cfg.get("arch", "dense1"), A, L, NN=NN)
+        inner = dl.build(cfg.get("arch", "dense1"), A, LM, NN=NN)
 
         class Net(NN.Module):
             def __init__(self):
@@ -226,7 +282,7 @@ def worker(cfg):
                 if cfg.get("lazy_cache"):
                     # a tensor built on first use and kept by the model (positional weights, per-length caches, lazy modules)
                     if getattr(self, "_pos", None) is None:
-                        self._pos = torch_s.ones(1, A, L)
+                        self._pos = torch_s.ones(1, A, LM)
                     X = X * self._pos
                 return self.inner(X)
         net = Net()
@@ -237,12 +293,16 @@ def worker(cfg):
         pvals0 = [p.a.copy() for p in net.parameters()]
         bufs0 = [b.a.copy() for b in net.buffers()]
         faults.paused = True
-        beh0 = _behaviour(net if cfg.get("lazy_cache") else inner, A, L)
+        beh0 = _behaviour(net if cfg.get("lazy_cache") else inner, A, LM)
         faults.paused = False
         if cfg.get("lazy_cache"):
             net._pos = None
-        xc = C.sym_chars(ctx, "x", (B, L), A)
+        if cfg.get("concrete_x"):
+            xc = np.array(_default_x(A, L, B), dtype=object)
+        else:
+            xc = C.sym_chars(ctx, "x", (B, L), A)
         X = C.onehot_from_chars(xc, A, dtype="float32")
+        x_snapshot = X.a.copy()
         ctx.state["bhook_fault"] = lambda mod: faults.site("bhook")
 
         def refgen(Xb, n=1, random_state=None, **kw):
@@ -281,6 +341,12 @@ def worker(cfg):
                     mg = ld.load("marginalize")
                     mo = C.onehot_from_chars(np.zeros((1, 1), dtype=object), A, dtype="float32")
                     mg.marginalize(net, X, mo, start=0, alphabet=list(C.ALPHA[:A]), func=dls.deep_lift_shap, references=refgen, n_shuffles=1, device="cpu", random_state=0)
+                else:
+                    call_entry(entry, ld.load, net, X, A, L, refgen,
+                               oh=lambda ch: C.onehot_from_chars(np.array(ch, dtype=object), A, dtype="float32"),
+                               ints=lambda rows: T.Tensor(np.array(rows, dtype=object), dtype="int64"),
+                               reals=lambda *shape: T.Tensor(np.array([Fraction(i + 1, 2) for i in range(int(np.prod(shape)))], dtype=object).reshape(shape + ((1,) if len(shape) == 1 else ())), dtype="float32"),
+                               bs=cfg.get("batch_size", 2), l1=lambda a, b: abs(a - b))
                 outcome.append("returned")
             except Exception as e:
                 if isinstance(e, core.Inconclusive):
@@ -291,14 +357,18 @@ def worker(cfg):
                 if not expected:
                     # nothing was injected into this call: it must not raise
                     out["violations"].append(C.violation("unexpected-raise", "%s raised %s: %s although nothing failed in its environment" % (entry, type(e).__name__, e),
-                                                         dict(cfg, at=0, site=None, entry="deep_lift_shap" if entry != "predict" else "predict"), replay))
+                                                         dict(cfg, at=0, site=None, entry=_rentry(entry)), replay))
                     return "raised"
         dls.warnings = __import__("warnings")
+        if faults.fired is None and faults.n > cfg["K"] and hist == 1:
+            # unwinding assertion: the run has more crash points than the bound K lets the solver choose from
+            raise core.Inconclusive("C07: %d fault sites reached but K = %d" % (faults.n, cfg["K"]))
+        out["max_sites"] = max(out.get("max_sites", 0), faults.n)
         # ---- post-state
         left = net.n_hooks()
         mdl = ctx.model() if ctx.check() == z3.sat else None
         fa = core.model_value(mdl, faults.at) if mdl is not None else None
-        rp = dict(cfg, at=(faults.fired[0] if faults.fired else 0), site=(faults.fired[1] if faults.fired else ("target" if (cfg.get("bad_target") and target == 99) else None)))
+        rp = dict(cfg, at=(faults.fired[2] if faults.fired else 0), site=(faults.fired[1] if faults.fired else ("target" if (cfg.get("bad_target") and target == 99) else None)))
         ctx.stats.obligations += 1
         ok = True
         if left:
@@ -307,10 +377,10 @@ def worker(cfg):
             kind_idx = rp["at"]
             key = "dls:hooks-leak-on-failure-outside-try" if entry != "predict" else "hooks-left"
             out["violations"].append(C.violation(key, "%d hooks left on the model after %s (%s; fault %s)" % (left, entry, outcome, faults.fired),
-                                                 dict(rp, entry="deep_lift_shap" if entry != "predict" else "predict", at=_nth_of_kind(faults)), replay))
+                                                 dict(rp, entry=_rentry(entry), at=_nth_of_kind(faults)), replay))
         if [id(p) for p in net.parameters()] != params0 or any(not C.same_objects(p.a, q) for p, q in zip(net.parameters(), pvals0)):
             ok = False
-            out["violations"].append(C.violation("params-changed", "parameters replaced or modified by %s" % entry, dict(rp, entry="deep_lift_shap"), replay))
+            out["violations"].append(C.violation("params-changed", "parameters replaced or modified by %s" % entry, dict(rp, entry=_rentry(entry)), replay))
         if any(not (b.a.shape == q.shape and all(bool(x_ == y_) for x_, y_ in zip(b.a.flat, q.flat))) for b, q in zip(net.buffers(), bufs0)):
             ok = False
             out["violations"].append(C.violation("buffers-changed", "buffers (running statistics) of the model were modified by %s" % entry, dict(rp, entry=entry, bn=True), replay))
@@ -327,12 +397,12 @@ def worker(cfg):
         if left == 0:
             faults.paused = True
             try:
-                beh1 = _behaviour(net if cfg.get("lazy_cache") else inner, A, L)
+                beh1 = _behaviour(net if cfg.get("lazy_cache") else inner, A, LM)
             except RuntimeError as e:
                 beh1 = "raised %s" % e
             if beh1 != beh0:
                 ok = False
-                out["violations"].append(C.violation("behaviour-changed", "plain forward / gradient of the model differs after %s%s" % (entry, (" (%s)" % beh1[:120]) if isinstance(beh1, str) else ""), dict(rp, entry="deep_lift_shap" if entry != "predict" else "predict"), replay))
+                out["violations"].append(C.violation("behaviour-changed", "plain forward / gradient of the model differs after %s%s" % (entry, (" (%s)" % beh1[:120]) if isinstance(beh1, str) else ""), dict(rp, entry=_rentry(entry)), replay))
         if ok:
             ctx.stats.discharged += 1
         if len(out["samples"]) < 3:
@@ -344,8 +414,16 @@ def worker(cfg):
     return out
 
 
+def _rentry(entry):
+    return entry if (entry == "predict" or entry in EXTRA) else "deep_lift_shap"
+
+
+def _default_x(A, L, B):
+    return [[(i + b) % A for i in range(L)] for b in range(B)]
+
+
 def _nth_of_kind(faults):
-    return 1 if faults.fired is None else max(1, faults.fired[0] // 2)
+    return 1 if faults.fired is None else faults.fired[2]
 
 
 def configs(tier):
@@ -357,7 +435,12 @@ def configs(tier):
     cf += [dict(entry="deep_lift_shap", A=2, L=3, B=2, K=12, batch_size=2, warn_as_error=True),
            dict(entry="deep_lift_shap", A=2, L=2, B=1, K=8, batch_size=1, history=2, history_ops=True, bad_target=True),
            dict(entry="predict", A=2, L=3, B=2, K=3, batch_size=2, lazy_cache=True)]
+    # every other model-taking entry point, on a model with BatchNorm statistics and a symbolic initial mode
+    for e in EXTRA:
+        cf.append(dict(entry=e, A=2, L=4, B=2, K=(60 if e == "greedy" else 30), batch_size=2, concrete_x=True, bn=True, **({"L_model": 3} if e == "deletion_effect" else {})))
     if not q:
+        for e in EXTRA:
+            cf.append(dict(entry=e, A=2, L=4, B=3, K=(90 if e == "greedy" else 60), batch_size=2, concrete_x=(e == "greedy"), arch="conv", **({"L_model": 3} if e == "deletion_effect" else {})))
         cf += [dict(entry="deep_lift_shap", A=2, L=3, B=3, K=24, batch_size=2, arch="conv"), dict(entry="deep_lift_shap", A=2, L=3, B=2, K=14, batch_size=4, raw=True),
                dict(entry="deep_lift_shap", A=3, L=3, B=2, K=16, batch_size=1, history=2)]
     return cf
@@ -366,7 +449,10 @@ def configs(tier):
 def main(tier, seed):
     rep = harness.Report(PROP, tier, seed)
     ld, _ = C.fresh_env()
-    rep.functions = [ld.func_info("deep_lift_shap", f) for f in ("deep_lift_shap", "_register_hooks", "_clear_hooks")] + [ld.func_info("predict", "predict"), ld.func_info("marginalize", "marginalize")]
+    rep.functions = [ld.func_info("deep_lift_shap", f) for f in ("deep_lift_shap", "_register_hooks", "_clear_hooks")] + [ld.func_info("predict", "predict"), ld.func_info("marginalize", "marginalize"),
+                     ld.func_info("marginalize", "marginalize_annotations"), ld.func_info("ism", "saturation_mutagenesis"), ld.func_info("ablate", "ablate"), ld.func_info("ablate", "ablate_annotations"),
+                     ld.func_info("space", "space"), ld.func_info("variant_effect", "substitution_effect"), ld.func_info("variant_effect", "deletion_effect"), ld.func_info("variant_effect", "insertion_effect"),
+                     ld.func_info("product", "apply_product"), ld.func_info("product", "apply_pairwise"), ld.func_info("design", "greedy_substitution")]
     cf = configs(tier)
     rep.bounds = {"crash_points": "every fault site reached in the run (model forward, reference generator, backward hook) up to K = %d, plus 'no fault'; out-of-range target" % max(c["K"] for c in cf),
                   "entries": sorted({c["entry"] for c in cf}), "histories": "1-2 calls on a shared model"}
